@@ -1287,4 +1287,30 @@ theorem natLimbs_wf (v : Nat) (h : v ≠ 0) :
         simpa [List.getLastD] using a3
 
 
+
+/-! ### n-th roots: the final adjustment -/
+
+
+/-- the correction loop `while (S^k > R) S--` reaches the floor root from any candidate that is at most
+    `fuel` too large. -/
+theorem adjustDown_spec (k R : Nat) (hk : 0 < k) : ∀ (fuel s : Nat), iroot k R ≤ s → s ≤ iroot k R + fuel →
+    adjustDown k R fuel s = iroot k R
+  | 0, s, h1, h2 => by simp [adjustDown]; omega
+  | fuel + 1, s, h1, h2 => by
+    obtain ⟨r1, r2⟩ := iroot_spec k R hk
+    unfold adjustDown
+    split
+    · next h =>
+      have : iroot k R < s := by
+        by_contra hc
+        have : s = iroot k R := by omega
+        subst this; omega
+      exact adjustDown_spec k R hk fuel (s - 1) (by omega) (by omega)
+    · next h =>
+      by_contra hc
+      have : iroot k R + 1 ≤ s := by omega
+      have := Nat.pow_le_pow_left this k
+      omega
+
+
 end Mpir.Root
